@@ -968,6 +968,7 @@ func (e *Engine) Explore(st *State) {
 		x.add(s)
 	}
 	lastProg := time.Now()
+	var firstViolation time.Time
 	for r := 0; r <= x.maxRank; r++ {
 		lv := x.levels[r]
 		if lv == nil {
@@ -988,6 +989,19 @@ func (e *Engine) Explore(st *State) {
 		}
 		if !e.Deadline.IsZero() && time.Now().After(e.Deadline) {
 			abort("UNWIND", "time budget exceeded after %d configurations", e.Stats.Configs)
+		}
+		// once a violation has been found the verdict is known: keep collecting further ones for a short while
+		// only (a change that breaks the property often blows the state space up as well)
+		e.mu.Lock()
+		nv := len(*e.viol)
+		e.mu.Unlock()
+		if nv > 0 && e.AfterViolation > 0 {
+			if firstViolation.IsZero() {
+				firstViolation = time.Now()
+			} else if time.Since(firstViolation) > e.AfterViolation {
+				e.Stats.StoppedAfterViolation = true
+				break
+			}
 		}
 		if e.Progress && time.Since(lastProg) > 5*time.Second {
 			lastProg = time.Now()
